@@ -172,7 +172,7 @@ func RunChild(argv []string, env []string, logFile string, watchdog time.Duratio
 		switch {
 		case res.ExitCode == 124 || res.ExitCode == 137 || strings.Contains(s, "SIGQUIT: quit"):
 			res.Status = "watchdog"
-		case strings.Contains(s, "fatal error: runtime: out of memory") || strings.Contains(s, "cannot allocate memory"):
+		case strings.Contains(s, "out of memory") || strings.Contains(s, "cannot allocate memory"):
 			res.Status = "oom"
 		case strings.Contains(s, "panic:") || strings.Contains(s, "fatal error:") || strings.Contains(s, "goroutine 1 ["):
 			res.Status = "panic"
